@@ -757,11 +757,18 @@ func BuildCond(v V) stackage.Condition {
 	if cf.Eqf != 0 {
 		c.SetEqualityPolicy(eqPolicy(cf.Eqf))
 	}
+	if cf.Vpf != 0 {
+		c.SetValidityPolicy(closureFor(reflect.TypeOf(stackage.ValidityPolicy(nil)), cf.Vpf).Interface().(stackage.ValidityPolicy))
+	}
+	if cf.Rpf != 0 {
+		c.SetPresentationPolicy(closureFor(reflect.TypeOf(stackage.PresentationPolicy(nil)), cf.Rpf).Interface().(stackage.PresentationPolicy))
+	}
 	if cf.Err != 0 {
 		c.SetErr(errOf(cf.Err))
 	}
 	if cf.Opt&fRO != 0 {
 		c.SetReadOnly(true)
+		c.SetReadOnly(true) // asking twice is asking once
 	}
 	return c
 }
